@@ -35,7 +35,12 @@ def cons(rng, c, plain=False):
     toks = [n for n, on in zip(("dx", "dy", "rz"), c) if on]
     if plain:
         return "{ " + "".join(t + " " for t in toks) + "}"
-    style = rng.randrange(7)
+    style = rng.randrange(8)
+    if style == 7 and 1 <= len(toks) <= 2:
+        # the braces hold a set: a term listed twice says nothing more than once (two terms written as three names are not 'all three')
+        toks = list(toks)
+        toks.insert(rng.randrange(len(toks) + 1), rng.choice(toks))
+        return "{ " + " ".join(toks) + " }"
     if style == 6 and len(toks) > 1:
         # the braces hold a set: any order of the terms
         toks = list(toks)
